@@ -79,7 +79,7 @@ fn check_case(ci: usize, case: &Value, same_thread: bool) -> Option<Value> {
             }
             "build" => {
                 let k = op["k"].as_str().unwrap();
-                match catch(|| build(k, (ci + i) % 2 == 1)) {
+                match catch(|| build(k, mix(ci + i) % 2 == 1)) {
                     Ok(Ok(e)) => {
                         encs.insert(k.to_string(), e);
                     }
